@@ -87,6 +87,8 @@ fn main() {
             vh::props::c02::worker_main(&a.rest[0], &a.rest[1]);
             return;
         }
+        "dbgac" => { dbg_ac(); return; }
+        "dbgspawn" => { dbg_spawn(); return; }
         "smoke" => {
             smoke();
             return;
@@ -153,4 +155,52 @@ fn dbg_ctx() {
             prev = Some(c);
         }
     }
+}
+
+#[allow(dead_code)]
+fn dbg_ac() {
+    use vh::tspec::*;
+    let mut rng = vh::rng::Rng::new(11);
+    for round in 0..40 {
+        let mut b = Builder::new();
+        for k in 0..8 {
+            let mode = if k % 3 == 0 { Mode::Spin } else { Mode::Pause };
+            let pages = 2;
+            let sp = 4096 + rng.below(4000) as i64;
+            let i = b.sentinel(&mut rng, mode, &StackShape { pages, sp_offset: sp, ..Default::default() }, None, None);
+            if let vh::spec::ThreadKind::Sentinel { regs, .. } = &mut b.spec.threads[i].kind {
+                regs.rflags |= 0x4_0000;
+            }
+            b.sentinels[i].regs.rflags |= 0x4_0000;
+        }
+        match vh::target::Target::spawn(b.spec.clone(), &b.opts) {
+            Ok(t) => {
+                let o = vh::dump::DumpOpts::new(t.pid, t.pid);
+                let (out, _) = vh::dump::dump(&o);
+                let ok = matches!(out, vh::dump::Outcome::Ok(_));
+                std::thread::sleep(std::time::Duration::from_millis(5));
+                let mut t = t;
+                println!("round {round}: spawned, dump ok={ok}, alive after={}", t.alive());
+            }
+            Err(e) => println!("round {round}: {e}"),
+        }
+    }
+}
+
+#[allow(dead_code)]
+fn dbg_spawn() {
+    use vh::scen::*;
+    let mut rng = vh::rng::Rng::new(5);
+    let mut fails = 0;
+    for round in 0..200 {
+        let cfg = TargetCfg { sentinels: 12, max_spinners: 3, heartbeats: 10, sleepers: 10, names: true, regions: 4, elf_files: 2, fds: 7, stack_pages_max: 6, ..Default::default() };
+        match build_target(&mut rng, &cfg) {
+            Ok(_) => {}
+            Err(e) => {
+                fails += 1;
+                println!("round {round}: {e}");
+            }
+        }
+    }
+    println!("fails {fails}");
 }
